@@ -14,6 +14,7 @@
 // proposed patches in work/notes/C12_findings.md):
 //   known finding, excluded narrowly by construction (VERIF_NO_EXCLUDE=1 switches the exclusion off):
 //     F4 generic/blocks get_bin does not invert get_LOR
+//     H2 ProjDataInfoSubsetByView::clone() shares the original object with the subset it was cloned from (c12_history.h)
 //   defects found by this harness and repaired in STIR (regression inputs replays/C12/fixed_*.json; the input classes are
 //   part of the normal search):
 //     F1 ArcCorrection: last output bin twice as wide        F5 arc-corrected get_bin returned view_num==num_views
@@ -28,6 +29,10 @@
 // scanner the object under test is not constructed directly but DERIVED from another, already used object (clone / SSRB / public
 // setters / create_non_tof_clone, see c12_history.h for the domain).  All clauses then run on the derived object, and it must
 // equal (operator==) and answer identically to the fresh twin constructed directly with the final parameters.
+// Aliasing (c12_history.h (iv)): about half of the histories additionally KEEP objects (the original of a clone / SSRB call, side
+// copies made by clone / create_shared_clone / copy constructor / copy assignment / create_non_tof_clone, ProjDataInfoSubsetByView
+// objects) while the other object is changed with the setters and used; every kept object must afterwards still equal, and answer on
+// the whole API like, a fresh twin of its OWN settings that was built on its own Scanner object and never copied.
 #include "stir_gen.h"
 #include "c12_history.h"
 #include "stir/ProjDataInfoCylindricalNoArcCorr.h"
@@ -916,6 +921,8 @@ check_arc_correction(const shared_ptr<ProjDataInfo>& noarc_sptr, const json& a)
   return Result::pass();
 }
 
+Result check_clauses(const shared_ptr<ProjDataInfo>& pdi, const shared_ptr<Scanner>& sc, const json& c);
+
 Result
 check(const json& c)
 {
@@ -937,12 +944,16 @@ check(const json& c)
     if (auto p = dynamic_cast<ProjDataInfoCylindricalArcCorr*>(pdi.get()))
       p->set_tangential_sampling(c["arc_bin_size"].get<float>());
   // ---- object history: the object under test is derived from another, used object; pdi (constructed directly) is its fresh twin ----
-  if (c.contains("hist") && c["hist"].is_object())
+  // (the history works on its OWN Scanner object: the fresh twin shares nothing with the objects of the history)
+  const bool with_history = c.contains("hist") && c["hist"].is_object();
+  shared_ptr<Scanner> sc_hist;
+  const shared_ptr<ProjDataInfo> fresh = pdi;
+  vh::Alias al;
+  if (with_history)
     {
       const json& h = c["hist"];
-      shared_ptr<ProjDataInfo> fresh = pdi, derived;
-      VF_TRY(vh::derive(derived, sc, h, c["pdi"]["trim"], c.contains("arc_bin_size") ? c["arc_bin_size"] : json()));
-      vh::count_history_classes(h);
+      shared_ptr<ProjDataInfo> derived;
+      sc_hist = vg::make_scanner(c["scanner"]);
       vh::DiffOpts o;
       o.ax_stride = c.value("ax_stride", 1);
       o.view_stride = c.value("view_stride", 1);
@@ -952,6 +963,12 @@ check(const json& c)
         const double ntof = fresh->is_tof_data() ? sc->get_max_num_timing_poss() + 3 : 1;
         o.det_stride = std::max(1, int(std::ceil(nd * nd * 5 * ntof / 2e6)));
       }
+      // aliasing re-checks (c12_history.h (iv)): the same differential, on coarser sets of bins and detector pairs for all but the
+      // smallest scanners (the ring-pair tables and the ring pair -> (segment, axial position) map are always compared completely)
+      al.scanner_spec = c["scanner"];
+      vh::set_alias_opts(al, o, *sc);
+      VF_TRY(vh::derive(derived, sc_hist, h, c["pdi"]["trim"], c.contains("arc_bin_size") ? c["arc_bin_size"] : json(), &al));
+      vh::count_history_classes(h);
       VF_TRY(vh::diff_twin(*derived, *fresh, o));
       if (h.contains("subset"))
         {
@@ -967,6 +984,27 @@ check(const json& c)
     }
   else
     stats().cls("history: none (fresh object)");
+  const Result rc = check_clauses(pdi, sc, c);
+  if (rc.kind != Result::PASS || !with_history)
+    return rc;
+  // ---- aliasing: every object that was kept while its copy / original was changed and used still answers like a fresh twin of its
+  // own settings; then the object under test once more (the re-checks rebuilt the lazy tables of the kept objects); the Scanner
+  // object of the history is unchanged
+  VF_TRY(vh::recheck_all(al));
+  if (!al.kept.empty())
+    {
+      const Result rt = vh::diff_twin(*pdi, *fresh, al.light);
+      if (rt.failed())
+        return Result::fail("ALIASING: the object under test after the kept objects were re-checked :: " + rt.msg);
+    }
+  VF_TRY(vh::scanner_unchanged(*sc_hist, c["scanner"]));
+  return Result::pass();
+}
+
+//! all clauses of the property on one object
+Result
+check_clauses(const shared_ptr<ProjDataInfo>& pdi, const shared_ptr<Scanner>& sc, const json& c)
+{
   if (pdi->is_tof_data())
     stats().cls(pdi->get_tof_mash_factor() > 1 ? "tof mashed" : "tof");
   VF_TRY(check_tof(*pdi));
@@ -1032,7 +1070,15 @@ add_history(Src& s, json& c, const shared_ptr<Scanner>& sc, int num, int den)
 {
   if (!s.chance(num, den))
     return;
-  json h = vh::gen_history(s, sc, c["pdi"]);
+  vh::HistOpts ho;
+  ho.with_subsets = true;
+  if (c["pdi"]["arccorr"].get<bool>())
+    { // the source object of a history stays inside the ring as well (see gen(): get_LOR/get_tantheta assert |s| < R)
+      const double R = double(sc->get_inner_ring_radius()) + double(sc->get_average_depth_of_interaction());
+      const double bin = c.contains("arc_bin_size") ? c["arc_bin_size"].get<double>() : double(sc->get_default_bin_size());
+      ho.arc_max_tang = bin > 0 ? std::max(1, 2 * (int(std::floor(0.97 * R / bin)) - 1) + 1) : 0;
+    }
+  json h = vh::gen_history(s, sc, c["pdi"], ho);
   if (h.is_null())
     return;
   if (s.chance(1, 4))
@@ -1244,5 +1290,6 @@ the_property()
   p.check = check;
   p.nontrivial = nontrivial;
   p.fixed_cases = fixed_cases;
+  p.known_signature = [](const json& c) { return vh::known_signature_H2(c); };
   return p;
 }
